@@ -55,6 +55,10 @@ def check(run):
     firstw = [a.site for a in q.field_accesses(op, {B + '::m_open', B + '::m_forwarder'}) if a.kind == 'assign']
     run.check(bool(cc) and all(q.any_precedes(op, cc, w) for w in firstw), 'R4', 'open-closes-first', T + '::open', op.loc(), 'open() does not close() before re-initialising', 'close(ec) dominates re-initialisation')
 
+    run.clause('a moved socket keeps its stream position: the move constructor initialises every field from the same field of the source (shared with C12)')
+    import p12
+    p12.move_ctor_rules(run, ((T, 'tcp'),))
+
     run.clause('R2 payload bytes (packet::buffer) are written only by the two senders and the consuming receiver; no hop alters them')
     engines.r2_writer_table(run, P + '::buffer', BUFFER_WRITERS, required=[T + '::write_some_impl', T + '::read_some_impl'])
 
